@@ -1123,6 +1123,32 @@ func ruleSelect(c *Ctx) {
 		f.foldCall(ctor, []fval{{k: constant.MakeInt64(0), t: types.Typ[types.Int]}})
 		good := ret != nil && !isNilConst(ret.Results[1])
 		c.check(good, fname(ctor), c.pos(ctor.Pos()), fname(ctor), "--track 0 is refused", "NewTrackNoSelector accepts 0 tracks: Select then divides by trackNum-1 = -1 / indexes an empty track list")
+		// the SMF header holds the track count in 16 bits: 65535 is the largest count a file can declare
+		c.site(1)
+		refuses := func(n int64) (bool, bool) {
+			f := c.newFolder()
+			var last *ssa.Return
+			f.hook = func(in ssa.Instruction, _ func(ssa.Value) fval) bool {
+				if r, ok := in.(*ssa.Return); ok {
+					last = r
+				}
+				return false
+			}
+			_, err := f.foldCall(ctor, []fval{{k: constant.MakeInt64(n), t: types.Typ[types.Int]}})
+			if last == nil || (err != nil && err != errStopped && last == nil) {
+				return false, false
+			}
+			return !isNilConst(last.Results[1]), true
+		}
+		r1, ok1 := refuses(1)
+		rMax, ok2 := refuses(65535)
+		rOver, ok3 := refuses(65536)
+		switch {
+		case !ok1 || !ok2 || !ok3:
+			c.undec(fname(ctor)+"|upper-bound", c.pos(ctor.Pos()), fname(ctor), "the constructor does not fold for 1 / 65535 / 65536 tracks")
+		default:
+			c.check(!r1 && !rMax && rOver, fname(ctor)+"|upper-bound", c.pos(ctor.Pos()), fname(ctor), "1..65535 tracks accepted, 65536 refused", fmt.Sprintf("NewTrackNoSelector: 1 refused=%v, 65535 refused=%v, 65536 refused=%v; the SMF header stores the number of tracks in 16 bits, so with --track 65536 and above `crd write` exits 0 with a header that declares (N mod 65536) tracks in front of N track chunks", r1, rMax, rOver))
+		}
 	} else {
 		c.missing("midix.NewTrackNoSelector")
 	}
@@ -1352,7 +1378,51 @@ func (c *Ctx) flowsTo(from ssa.Value, to ssa.Value) bool {
 // ---------------------------------------------------------------------------
 // TRACKCOUNT
 
+// checkDeltaBound: a delta time in a Standard MIDI File is a variable-length quantity of at most 4 bytes (0x0FFFFFFF).
+// The ticks of an instance come from an unbounded user value (sum of duration fractions) and rests accumulate, so some
+// comparison against that limit (or an equivalent bound on the value) must guard what is serialised.
+func (c *Ctx) checkDeltaBound() {
+	c.site(1)
+	const maxVLQ = 0x0FFFFFFF
+	found := ""
+	for _, fn := range c.srcFuncs() {
+		if fn.Pkg == nil {
+			continue
+		}
+		switch short(fn.Pkg.Pkg.Path()) {
+		case "midix", "play", "note", "op":
+		default:
+			continue
+		}
+		allInstrs(fn, func(in ssa.Instruction) {
+			b, ok := in.(*ssa.BinOp)
+			if !ok {
+				return
+			}
+			switch b.Op {
+			case token.LSS, token.LEQ, token.GTR, token.GEQ:
+			default:
+				return
+			}
+			for _, o := range []ssa.Value{b.X, b.Y} {
+				if k, ok := o.(*ssa.Const); ok && k.Value != nil {
+					if f, _ := constant.Float64Val(constant.ToFloat(k.Value)); f == maxVLQ || f == maxVLQ+1 {
+						found = fname(fn)
+					}
+				}
+			}
+		})
+	}
+	pos := ""
+	if m := c.writerModel(); m.typ != nil {
+		pos = c.pos(m.typ.Pos())
+	}
+	c.check(found != "", "midix|delta|vlq-bound", pos, "midix.MIDIWriter", "deltas are compared with the 4-byte variable-length limit in "+found,
+		"nothing bounds a delta time by 0x0FFFFFFF (the largest 4-byte variable-length quantity): an instance or a run of rests of 2^28 ticks or more (about 279621 beats at 960 ticks per quarter) is written as a 5-byte delta, which no SMF reader has to accept, and crd write still exits 0")
+}
+
 func ruleTrackCount(c *Ctx) {
+	c.checkDeltaBound()
 	if fn := c.fn("cmd", "getTrackSetController"); fn != nil {
 		c.site(1)
 		calls := callsTo(fn, "midix.NewTrackSetControllerFromTrackNum")
